@@ -76,7 +76,7 @@ class Algebra:
         return a
 
     def _gen(self, kind, a, unit=None):
-        if kind in ("E", "R", "L"):
+        if kind in ("E", "R", "L", "A"):
             a = self.canon(a)
         key = (kind, sp.srepr(a), sp.srepr(unit) if unit is not None else None)
         if key not in self.gens:
@@ -102,6 +102,8 @@ class Algebra:
                 r = sp.log(av)
             elif kind == "R":
                 r = sp.erf(av)
+            elif kind == "A":
+                r = sp.asin(av)
             elif kind == "C":
                 r = sp.Integer(int(av))      # int(): truncation towards zero
             else:
@@ -163,6 +165,13 @@ class Algebra:
         if isinstance(e, sp.asinh):
             u = self.nf(e.args[0])
             return self.glog(u + self.gpow(u ** 2 + 1, sp.Rational(1, 2)))
+        if isinstance(e, sp.asin):
+            a = self.canon(self.nf(e.args[0]))
+            if a == 0:
+                return sp.Integer(0)
+            if a.could_extract_minus_sign():
+                return -self._gen("A", sp.cancel(-a))     # arcsin is odd
+            return self._gen("A", a)
         if isinstance(e, sp.erf):
             a = sp.cancel(sp.together(self.nf(e.args[0])))
             if a == 0:
@@ -306,6 +315,8 @@ class Algebra:
             return self.D(a) / a
         if kind == "C":
             return sp.Integer(0)
+        if kind == "A":
+            return self.D(a) * self.gpow(1 - a ** 2, sp.Rational(-1, 2))
         if kind == "R":
             # d erf(t) = 2/sqrt(pi) exp(-t**2) dt
             return 2 * self.gpow(self.param("pi"), sp.Rational(-1, 2)) * self.gexp(sp.expand(-a ** 2)) * self.D(a)
@@ -342,7 +353,9 @@ class Algebra:
         for s in e.free_symbols:
             if s in self.info:
                 kind, a, unit = self.info[s]
-                if kind == "R":
+                if kind == "A":
+                    txt = f"arcsin({self.show(a, 60)})"
+                elif kind == "R":
                     txt = f"erf({self.show(a, 60)})"
                 elif kind == "C":
                     txt = f"int({self.show(a, 60)})"
@@ -360,7 +373,8 @@ class Algebra:
 # ================================================================================== translator
 NP_UNARY = {"np.log": sp.log, "np.exp": sp.exp, "numpy.log": sp.log, "numpy.exp": sp.exp, "math.log": sp.log,
             "math.exp": sp.exp, "np.sinh": sp.sinh, "np.cosh": sp.cosh, "np.tanh": sp.tanh, "np.arcsinh": sp.asinh,
-            "math.sinh": sp.sinh, "math.cosh": sp.cosh, "math.tanh": sp.tanh, "math.asinh": sp.asinh}
+            "math.sinh": sp.sinh, "math.cosh": sp.cosh, "math.tanh": sp.tanh, "math.asinh": sp.asinh,
+            "np.arcsin": sp.asin, "math.asin": sp.asin}
 IDENT_CALLS = {"np.array", "np.asarray", "np.float64", "float", "np.copy", "np.atleast_1d"}
 ONES = {"np.ones", "np.ones_like"}
 ZEROS = {"np.zeros", "np.zeros_like"}
